@@ -246,7 +246,12 @@ fn parse_offset(s: &str) -> Result<Duration, HifitimeError> {
     };
 
     // Fetch the hours
-    let hours: i64 = match lexical_core::parse(s[indexes.0..indexes.1].as_bytes()) {
+    // NOTE: The string may contain any unicode character, so it may not be possible to slice it at these indexes.
+    let hours_str = s.get(indexes.0..indexes.1).ok_or(HifitimeError::Parse {
+        source: ParsingError::InvalidTimezone,
+        details: "invalid timezone format [+/-]HH:MM",
+    })?;
+    let hours: i64 = match lexical_core::parse(hours_str.as_bytes()) {
         Ok(val) => val,
         Err(err) => {
             return Err(HifitimeError::Parse {
